@@ -216,6 +216,35 @@ def _v2000_props(rec, per_line):
     return '\n'.join(out)
 
 
+def _mrv_compact(rec):
+    """Rewrite every <atomArray> of an MRV record into the compact attribute-list form other programs (ChemAxon's own
+    writer for small molecules) use: <atomArray atomID="a1 a2" elementType="C O" x2="..." y2="..." .../>."""
+    import re
+
+    def one(m):
+        atoms = re.findall(r'<atom ([^>]*?)/>', m.group(1))
+        if not atoms:
+            return m.group(0)
+        cols = {'id': [], 'elementType': [], 'x2': [], 'y2': [], 'mrvMap': [], 'formalCharge': [], 'radical': [], 'isotope': []}
+        for a in atoms:
+            d = dict(re.findall(r'(\w+)="([^"]*)"', a))
+            cols['id'].append(d['id'])
+            cols['elementType'].append(d['elementType'])
+            cols['x2'].append(d.get('x2', '0'))
+            cols['y2'].append(d.get('y2', '0'))
+            cols['mrvMap'].append(d.get('mrvMap', '0'))
+            cols['formalCharge'].append(d.get('formalCharge', '0'))
+            cols['radical'].append(d.get('radical', '0'))
+            cols['isotope'].append(d.get('isotope', '0'))
+        out = f'<atomArray atomID="{" ".join(cols["id"])}" elementType="{" ".join(cols["elementType"])}" ' \
+              f'x2="{" ".join(cols["x2"])}" y2="{" ".join(cols["y2"])}"'
+        for k in ('mrvMap', 'formalCharge', 'radical', 'isotope'):
+            if any(v != '0' for v in cols[k]):
+                out += f' {k}="{" ".join(cols[k])}"'
+        return out + '/>'
+    return re.sub(r'<atomArray>(.*?)</atomArray>', one, rec, flags=re.S)
+
+
 def apply_foreign(fmt, text, extents, spec):
     kind = spec.get('kind')
     pieces, new_ext, pos, last = [], [], 0, 0
@@ -240,6 +269,8 @@ def apply_foreign(fmt, text, extents, spec):
                         line = 'M  V30 ' + line[k + 1:]
                 out.append(line)
             rec = '\n'.join(out)
+        if kind == 'mrv_compact' and fmt == 'mrv':
+            rec = _mrv_compact(rec)
         if kind == 'v2000props' and fmt in ('sdf', 'rdf'):
             rec = _v2000_props(rec, spec.get('per_line', 8))
         pieces.append(rec)
@@ -1152,8 +1183,11 @@ def generate(seed):
     mode = cfg['mode']
     if mode in ('clean', 'indexed') and s.random() < 0.3:
         k = s.choice(['v3000wrap', 'v3000wrap', 'no_final_delimiter', 'crlf', 'empty_record', 'empty_record', 'v2000props', 'v2000props', 'rireg'])
+        if fmt == 'mrv':
+            k = 'mrv_compact'
         if (k == 'v3000wrap' and fmt in ('esdf', 'erdf')) or (k == 'empty_record' and fmt != 'mrv') or \
                 (k == 'v2000props' and fmt in ('sdf', 'rdf')) or (k == 'rireg' and fmt in ('rdf', 'erdf')) or \
+                (k == 'mrv_compact' and fmt == 'mrv') or \
                 (k == 'no_final_delimiter' and fmt in ('sdf', 'esdf') and mode == 'clean') or \
                 (k == 'crlf' and fmt != 'mrv'):
             trace['foreign'] = {'kind': k, 'width': s.choice([20, 30, 40, 60, 78]), 'blank_first': s.random() < 0.5,
